@@ -140,6 +140,15 @@ func init() {
 			return it.boolV(it.Known[name])
 		},
 		"vSymbolic": func(it *Interp, a []Value) Value { return it.S.True },
+		"vOtherGoroutines": func(it *Interp, a []Value) Value {
+			n := 0
+			for _, g := range it.gs {
+				if g != it.cur && g.state != gDone {
+					n++
+				}
+			}
+			return it.intV(n)
+		},
 		"vYield": func(it *Interp, a []Value) Value {
 			// schedule choice point: pick any runnable goroutine
 			var run []*Goroutine
